@@ -499,7 +499,8 @@ def main(argv=None):
 
     describe = dict(
         level="other",
-        rule="18 programs over three leaves with SYMBOLIC constant flags (views, set-item, augmented assignment, out=/where=, reductions, matmul, "
+        rule="operation sweep: every C02 case body without an in-place statement, leaves with symbolic flags and as bare arrays / constant tensors / one "
+             "non-constant tensor (rule: result constant iff no operand is a non-constant tensor; constants never acquire .grad); 23 programs over three leaves with SYMBOLIC constant flags (views, set-item, augmented assignment, out=/where=, reductions, matmul, "
              "einsum, where, concatenate, constant=True/False overrides on functions and methods); every flag assignment the library "
              "distinguishes is a path; plus concrete dtype rules (int/bool always constant, constant=False raises, float default)",
         explanation="the library forks wherever it reads a flag (Tensor._op inference, Operation.backward skip, Tensor.backward early exit, copy "
